@@ -18,6 +18,9 @@ inductive Ev where
   | retryable             -- raise OSError with an errno in ERRNO_RETRIES
   | fatal                 -- raise OSError with any other errno
   | timeout               -- raise socket.timeout
+  | partialFail (k : Nat) (retry : Bool)
+      -- `sendall` transmitted k bytes and then raised an OSError (retryable errno iff `retry`);
+      -- for `recv` / `send` (which either transfer or raise) it is the plain error of that kind
   deriving Repr, DecidableEq
 
 inductive RecvResult where
@@ -53,6 +56,8 @@ def recvLoop (size : Nat) (data : Bytes) (stream : Bytes) : List Ev → RecvResu
       | .retryable => recvLoop size data stream rest   -- sleep, `while True` again
       | .fatal => (.closed none, stream, rest)
       | .timeout => (.timeout, stream, rest)
+      | .partialFail _ true => recvLoop size data stream rest
+      | .partialFail _ false => (.closed none, stream, rest)
     else recvFinish size data stream (ev :: rest)
 
 /-- The MSG_WAITALL fast path (socketutil.py:129-145) followed by the fall-through. -/
@@ -66,6 +71,8 @@ def recvWaitall (size : Nat) (stream : Bytes) : List Ev → RecvResult × Bytes 
   | .retryable :: rest => recvWaitall size stream rest
   | .fatal :: rest => (.closed none, stream, rest)
   | .timeout :: rest => (.timeout, stream, rest)
+  | .partialFail _ true :: rest => recvWaitall size stream rest
+  | .partialFail _ false :: rest => (.closed none, stream, rest)
 
 /-- `receive_data(sock, size)`: `waitall` = `USE_MSG_WAITALL and not hasattr(sock, "getpeercert")`. -/
 def receive (waitall : Bool) (size : Nat) (stream : Bytes) (script : List Ev) :
@@ -91,6 +98,8 @@ def sendLoop (data : Bytes) (acc : Bytes) : List Ev → SendResult × Bytes × L
       | .retryable => sendLoop data acc rest
       | .fatal => (.closed, acc, rest)
       | .timeout => (.timeout, acc, rest)
+      | .partialFail _ true => sendLoop data acc rest
+      | .partialFail _ false => (.closed, acc, rest)
 
 /-- `send_data(sock, data)`.  Blocking mode uses one `sendall` call: the event says whether the
     kernel took everything (`deliver k` with `k ≥ len` — `sendall` never returns short) or raised
@@ -103,6 +112,7 @@ def send (blocking : Bool) (data : Bytes) (script : List Ev) : SendResult × Byt
     | .retryable :: rest => (.closed, [], rest)         -- any socket.error ends the call in blocking mode
     | .fatal :: rest => (.closed, [], rest)
     | .timeout :: rest => (.timeout, [], rest)
+    | .partialFail k _ :: rest => (.closed, data.take k, rest)   -- whatever the errno: ConnectionClosedError
   else sendLoop data [] script
 
 end Pyro.SockIO
